@@ -110,7 +110,7 @@ Proof.
 Qed.
 
 Lemma approx_retime ov A B dest :
-  (forall s c, In (s, c) B -> created_by_transfer A s = true -> unix_type_of_gomode (st_mode s) = S_IFDIR ->
+  (forall s c, In (s, c) B -> inode_created A B s = true -> unix_type_of_gomode (st_mode s) = S_IFDIR ->
                alookup (st_path s) ov = None) ->
   approx A B dest -> approx A B (map (retime ov) dest).
 Proof.
@@ -123,7 +123,7 @@ Proof.
 Qed.
 
 Lemma approx_merge_retime ov A B dest :
-  (forall s c, In (s, c) B -> created_by_transfer A s = true -> unix_type_of_gomode (st_mode s) = S_IFDIR ->
+  (forall s c, In (s, c) B -> inode_created A B s = true -> unix_type_of_gomode (st_mode s) = S_IFDIR ->
                alookup (st_path s) ov = None) ->
   approx_merge A B dest -> approx_merge A B (map (retime ov) dest).
 Proof.
@@ -203,7 +203,7 @@ Proof.
   destruct (diff_apply_converges_proof H hdr d A B HwA HwB HlA HlB Hf) as [Herr Happ].
   split; [congruence|]. split; [exact Em|].
   unfold view_t. rewrite Em. apply approx_retime; auto.
-  intros s c Hin Hc Hd.
+  intros s c Hin Hc Hd. unfold inode_created in Hc. apply andb_true_iff in Hc. destruct Hc as [Hc _].
   destruct (fresh_created_change d A B HwA HwB s c Hin Hc) as (k & Hk & Hch).
   destruct HwA as [HsA HcA]. destruct HwB as [HsB HcB].
   apply (created_dir_restored Fresh k s); auto.
@@ -223,7 +223,8 @@ Proof.
   destruct (merge_is_overlay_proof H hdr d A B HwA HwB HlB) as (Herr & Happ & _).
   split; [congruence|]. split; [exact Em|].
   unfold view_t. rewrite Em. apply approx_merge_retime; auto.
-  intros s c Hin Hc Hd. destruct HwA as [HsA HcA]. destruct HwB as [HsB HcB].
+  intros s c Hin Hc Hd. unfold inode_created in Hc. apply andb_true_iff in Hc. destruct Hc as [Hc _].
+  destruct HwA as [HsA HcA]. destruct HwB as [HsB HcB].
   apply (created_dir_restored Merge KAdd s); auto.
   - rewrite diff_nil_l. apply adds_sorted; auto.
   - congruence.
